@@ -27,7 +27,8 @@ CHECKS = {
              "only explicit rejections (ValueError/NotImplementedError/RuntimeError with message) are admissible exceptions. B: every "
              "RSL part of every channel class runs at a symbolic z with the argument vector the class packs. C: the SF front door, "
              "real ESF and TMC classes run on UNRESTRICTED symbolic x, Q2, x_min: z3 proves result => inside the domain and "
-             "rejection (TMC=0) => outside, on every path. D: the NaN/inf scrubber over the valid observable names. E: CrossHair: "
+             "rejection (TMC=0) => outside, on every path. A2: the real compute_local over PTODIS x PTO(evolution) x switches. D: the NaN/inf "
+             "scrubber over the valid observable names. Rejections count only if raised by an explicit `raise` (AST check). E: CrossHair: "
              "ObservableName is total on short strings. Thorough tier covers the complete lattice product.",
         note=TRUST + "; CrossHair 0.0.110 (strings <= 4 chars); EW weights concrete in part A; NaNs produced inside external libraries "
              "are outside (the scrubber's totality is what is checked); quick tier takes a fixed 3% hash-selected subset of the lattice.",
@@ -75,7 +76,8 @@ CHECKS = {
              "lookup is a solver decision, all hit/miss paths are explored and z3 proves the returned object carries the requested "
              "x, Q2 and TMC-ness. (2) The real Runner.get_result on up to four elements with symbolic Q2: every ordering and tie "
              "is a solver-feasible path of sorted(); output[name][i] is the result of elements[i], unplanned observables do not "
-             "leak. (3) compute_raw / n3lo.interpolator memos are transparent. (4) ESF.get_result returns a private deep copy.",
+             "leak. (3) compute_raw / n3lo.interpolator memos are transparent, fact_matrices does not modify the operator memo (symbolic 2x2 "
+             "operators) and ren_coeffs(nf) is independent of the nf values asked before. (4) ESF.get_result returns a private deep copy.",
         note=TRUST + "; bounded history (<= 2 earlier requests) instead of an arbitrary pre-state: the cache key has no other state, "
              "one earlier entry suffices for a collision; bit-for-bit float equality is outside (reals).",
         technique="symbolic execution of the real cache/ordering code with symbolic dict keys (z3 decisions) + path exploration",
@@ -87,7 +89,8 @@ CHECKS = {
              "nf == 3 + #{(m k)^2 <= Q2} (ZM-VFNS, equality included), nf == NfFF at every Q2 for FFNS/FFN0/FONLL-*, that the "
              "scale-variation manager is handed the same nf and that kernel lists depend on thresholds only through nf. CrossHair "
              "confirms over all paths for an UNBOUNDED int NfFF that update_fns yields clamp(NfFF-3,0,3) zero thresholds followed "
-             "by inf ones with the documented massless flags; unknown schemes raise ValueError.",
+             "by inf ones with the documented massless flags; unknown schemes raise ValueError. The beta coefficients emitted by the real "
+             "apply_raw_diff_scale_variations equal beta0(nf), beta1(nf), beta0(nf)^2 for nf sequences on one shared manager.",
         note=TRUST + "; CrossHair 0.0.110 for update_fns; reals have no ulp: the boundary convention at equality is covered; "
              "unordered matching scales (np.digitize raises) are outside.",
         technique="symbolic execution of the real Runner/Combiner (z3 proxies, all paths) + CrossHair on update_fns",
@@ -138,7 +141,9 @@ CHECKS = {
              "constructor on symbolic x, Q2, m2 and explored path by path with LeProHQ/adani/tabulated coefficients as "
              "unconstrained atoms; z3 proves on every path that a non-empty coefficient is returned only for Q2(1-x)/x > 4m2 and "
              "a non-literal-zero integrand value only for Q2(1-z)/z > 4m2 (boundary included); CC convolution point == "
-             "x(1+m2/Q2); conv.convolution returns exactly (0,0) without touching the integrand for a point >= 1-eps.",
+             "x(1+m2/Q2); conv.convolution returns exactly (0,0) without touching the integrand for a point >= 1-eps; and, through the real "
+             "Combiner with three symbolic masses, every heavy/intrinsic/asymptotic kernel of a heavy component carries the mass of its own "
+             "flavour (the threshold is the one of the right quark).",
         note=TRUST + "; external libraries are uninterpreted, so only yadism's own guards can produce the zeros.",
         technique="symbolic execution of the real heavy-quark classes (z3 proxies, path exploration) + z3 NRA implication queries",
         design="§4 C09",
@@ -161,7 +166,8 @@ CHECKS = {
              "linear algebra run on symbolic x, y, Q2, M_h^2, M_W^2, G_F and formal structure-function tensors; z3 proves every "
              "entry (values and errors, every order key incl. scale-variation keys) equal to N (y+ F2 - yL FL +- y- xF3) with "
              "the documented N, y+-, yL for all ten kinds and four projectiles, plus the wiring (same flavour, same kinematics, "
-             "TMC-aware request, F3 skipped only where its coefficient is zero).",
+             "TMC-aware request, F3 skipped only where its coefficient is zero); the same claim is repeated through the REAL "
+             "Runner.__init__ with symbolic MW, MP, GF in the theory card (the card's values must reach the normalisation).",
         note=TRUST + "; XSFPFCC normalisation oracle follows the standard derivation (4 pi), docs print 8 pi (recorded tension).",
         technique="symbolic execution of the real cross-section code (z3 proxies, forked paths) + z3 NRA equality",
         design="§4 C11",
